@@ -13,8 +13,10 @@
    size, declared paths with global placeholders allowed (global elements, recursive masters).
    Raw tags (last part of this file, Proofs/RoundTripRaw.v): the second class extended with raw leaves (well-formed ids the
    specification does not declare, any payload, anywhere in the document), read by the configurations that tolerate
-   unknown ids; the writer's two ways of emitting a raw tag; write -> read for known-size documents with raw tags. *)
-From Ebml Require Import Base Tools Spec Writer Reader Pure Encode Proofs.Tactics Proofs.ReaderIO Proofs.Refine Proofs.PureProofs Proofs.RollUp Proofs.RoundTrip Proofs.RoundTripKnown Proofs.RoundTripRaw Proofs.WriteEnc Proofs.WriteFull.
+   unknown ids; the writer's two ways of emitting a raw tag; write -> read for known-size documents with raw tags.
+   Writer half and write -> read for the second class (very last part, Proofs/WriteEncG.v): declared paths with global
+   placeholders, each matching the masters the element is written in; tag by tag, as Full items, or any mix. *)
+From Ebml Require Import Base Tools Spec Writer Reader Pure Encode Proofs.Tactics Proofs.ReaderIO Proofs.Refine Proofs.PureProofs Proofs.RollUp Proofs.RoundTrip Proofs.RoundTripKnown Proofs.RoundTripRaw Proofs.WriteEnc Proofs.WriteFull Proofs.WriteMixed Proofs.WriteEncG.
 
 (* every conforming document — any nesting depth, any payloads, any size widths, any subset of masters of unknown size — is
    read back as exactly its items (masters as Start/End pairs, offsets of the first byte of each element), then None *)
@@ -423,3 +425,133 @@ Example C01_ex_raw_written :
   map out_tag (p_run C01r_cfg [191; 131; 1; 2; 3; 129; 131; 65; 60; 128] [RAll]) =
     [Some (TElem 191 (VRaw [1; 2; 3])); Some (TStart 129); Some (TElem 16700 (VRaw [])); Some (TEnd 129); None].
 Proof. vm_compute. repeat split; try reflexivity. repeat constructor. Qed.
+
+(* ------------------------------------------------------------------ writer half and round trip, global placeholders allowed *)
+(* PARTIAL — the writer half for declared paths with global placeholders (global elements, recursive masters), and with it
+   the write -> read round trip for the second class (every master of known size).
+   [wconfg sp d ids t] is [wconf sp d ids t] with, in place of "declared path = the chain of masters" (placeholder-free), the
+   writer's own check: the declared path MATCHES the chain of masters the element is written in
+   ([path_matches (get_path sp id) ids = true]; the writer counts every open master as known-size, ends nothing, and matches
+   the declared path against the ids of the open masters).  Everything else as in [wconf]: declared type, value of the declared
+   kind, payload = the writer's encoding of the value, size width = the explicit one (d = false) or the smallest one
+   (d = true); masters of known or unknown size.  The class of C01_writer_encodes_partial is contained. *)
+Theorem C01_writer_encodes_global_partial : forall sp d f, Forall (wconfg sp d []) f ->
+  (Forall (fun r => fst r = WOk) (fst (run_writer sp (wops_forest d f) []))) /\ (snd (run_writer sp (wops_forest d f) []) = enc_forest f).
+Proof. exact writer_encodes_g. Qed.
+
+Theorem C01_global_class_extends : forall sp d t ids, wconf sp d ids t -> wconfg sp d ids t.
+Proof. intros sp d t ids. apply wconf_wconfg. Qed.
+
+(* write -> read, second class: every master of known size ([all_known]), declared paths with placeholders, the start
+   hypothesis [dstart] of the reader half (it holds when the first top-level tag written is a root element) *)
+Theorem C01_roundtrip_known_partial2 : forall c d f, strict c -> c_buffered c = [] -> c_emit_eof c = true ->
+  Forall (wconfg (c_sp c) d []) f -> Forall (rconf c) f -> Forall all_known f -> dstart c f ->
+  Forall (fun r => fst r = WOk) (fst (run_writer (c_sp c) (wops_forest d f) [])) /\
+  map out_tag (p_run c (snd (run_writer (c_sp c) (wops_forest d f) [])) [RAll]) = map op_tag (wops_forest d f) ++ [None].
+Proof. exact write_read_roundtrip_known. Qed.
+
+(* the same with every top-level master given as one Full item ([fconfg] is [fconf] with matched paths) ... *)
+Theorem C01_full_roundtrip_known_partial : forall c d f, strict c -> c_buffered c = [] -> c_emit_eof c = true ->
+  Forall (fconfg (c_sp c) d []) f -> Forall (rconf c) f -> Forall all_known f -> dstart c f ->
+  Forall (fun r => fst r = WOk) (fst (run_writer (c_sp c) (fops d f) [])) /\
+  map out_tag (p_run c (snd (run_writer (c_sp c) (fops d f) [])) [RAll]) = map Some (flat (map full_tag f)) ++ [None].
+Proof. exact full_write_read_roundtrip_known. Qed.
+
+(* ... and with any mix of Full items and separate Start / End calls ([pres], Proofs/WriteMixed.v; [wtags] = the tags of the
+   write calls): the reader yields the written tags, Full items unrolled *)
+Theorem C01_mixed_roundtrip_known_partial : forall c d f ps, strict c -> c_buffered c = [] -> c_emit_eof c = true ->
+  pconfg_forest (c_sp c) d [] f ps -> Forall (rconf c) f -> Forall all_known f -> dstart c f ->
+  Forall (fun r => fst r = WOk) (fst (run_writer (c_sp c) (pops_forest d f ps) [])) /\
+  map out_tag (p_run c (snd (run_writer (c_sp c) (pops_forest d f ps) [])) [RAll]) = map Some (flat (wtags (pops_forest d f ps))) ++ [None].
+Proof. exact mixed_write_read_roundtrip_known. Qed.
+
+(* the document of C01k_doc with the payloads and size widths the writer chooses under default options:
+   Top { Void } Root { Void Seg { Val 5 Void Rec { Leaf } } Rec { Leaf Rec { Void Leaf } Void } Void } Root { } *)
+Definition C01g_leaf : rtree := RLeaf 16642 (VB [7]) [7] 1%nat.
+Definition C01g_doc : list rtree :=
+  [ RNode 132 (Some 1%nat) [ C01k_void ];
+    RNode 129 (Some 1%nat)
+      [ C01k_void;
+        RNode 130 (Some 1%nat) [ RLeaf 16641 (VU 5) [5] 1%nat; C01k_void; RNode 131 (Some 1%nat) [ C01g_leaf ] ];
+        RNode 131 (Some 1%nat) [ C01g_leaf; RNode 131 (Some 1%nat) [ C01k_void; C01g_leaf ]; C01k_void ];
+        C01k_void ];
+    RNode 129 (Some 1%nat) [] ].
+
+Example C01_ex_global_wconf :
+  Forall (wconfg C01k_sp true []) C01g_doc /\ Forall (rconf C01k_cfg) C01g_doc /\ Forall all_known C01g_doc /\ dstart C01k_cfg C01g_doc.
+Proof.
+  assert (I1 : idok 129) by (exists 1%nat, 1; repeat split; cbn; lia).
+  assert (I2 : idok 130) by (exists 1%nat, 2; repeat split; cbn; lia).
+  assert (I3 : idok 131) by (exists 1%nat, 3; repeat split; cbn; lia).
+  assert (I4 : idok 132) by (exists 1%nat, 4; repeat split; cbn; lia).
+  assert (I5 : idok 236) by (exists 1%nat, 108; repeat split; cbn; lia).
+  assert (I6 : idok 16641) by (exists 2%nat, 257; repeat split; cbn; lia).
+  assert (I7 : idok 16642) by (exists 2%nat, 258; repeat split; cbn; lia).
+  assert (F1 : forall n, n < 127 -> field_ok true 1 n).
+  { intros n Hn. split; [lia|]. split; [change (2 ^ (7 * N.of_nat 1) - 1) with 127; exact Hn|]. intros _. symmetry. apply find_size_len_small, Hn. }
+  split; [|split; [|split]].
+  - assert (V : forall ids, path_matches [PGlobal (Some 1) None] ids = true -> wconfg C01k_sp true ids C01k_void).
+    { intros ids Hp. split; [exact Hp|]. exists DBinary. split; [reflexivity|]. split; [discriminate|]. split; [exact I|].
+      split; [reflexivity|apply F1; cbn; lia]. }
+    assert (L : forall ids, path_matches [PId 129; PGlobal None None; PId 131] ids = true -> wconfg C01k_sp true ids C01g_leaf).
+    { intros ids Hp. split; [exact Hp|]. exists DBinary. split; [reflexivity|]. split; [discriminate|]. split; [exact I|].
+      split; [reflexivity|apply F1; cbn; lia]. }
+    assert (N : forall ids id cs, get_type C01k_sp id = Some DMaster -> path_matches (get_path C01k_sp id) ids = true -> flen cs < 127 ->
+              Forall (wconfg C01k_sp true (ids ++ [id])) cs -> wconfg C01k_sp true ids (RNode id (Some 1%nat) cs)).
+    { intros ids id cs H1 H2 H3 H4. apply wconfg_node. split; [exact H2|]. split; [exact H1|]. split; [|exact H4].
+      intros sl Hsl. injection Hsl as <-. apply F1, H3. }
+    constructor; [|constructor; [|constructor; [|constructor]]].
+    + apply N; [reflexivity|reflexivity|vm_compute; reflexivity|]. constructor; [apply V; reflexivity|constructor].
+    + apply N; [reflexivity|reflexivity|vm_compute; reflexivity|].
+      constructor; [apply V; reflexivity|]. constructor; [|constructor; [|constructor; [apply V; reflexivity|constructor]]].
+      * apply N; [reflexivity|reflexivity|vm_compute; reflexivity|].
+        constructor; [|constructor; [apply V; reflexivity|constructor; [|constructor]]].
+        -- split; [reflexivity|]. exists DUInt. split; [reflexivity|]. split; [discriminate|]. split; [exact I|].
+           split; [reflexivity|apply F1; cbn; lia].
+        -- apply N; [reflexivity|reflexivity|vm_compute; reflexivity|]. constructor; [apply L; reflexivity|constructor].
+      * apply N; [reflexivity|reflexivity|vm_compute; reflexivity|].
+        constructor; [apply L; reflexivity|]. constructor; [|constructor; [apply V; reflexivity|constructor]].
+        apply N; [reflexivity|reflexivity|vm_compute; reflexivity|].
+        constructor; [apply V; reflexivity|constructor; [apply L; reflexivity|constructor]].
+    + apply N; [reflexivity|reflexivity|vm_compute; reflexivity|]. constructor.
+  - assert (V : rconf C01k_cfg C01k_void).
+    { split; [exact I5|]. split; [repeat constructor; lia|vm_compute; discriminate]. }
+    assert (L : rconf C01k_cfg C01g_leaf).
+    { split; [exact I7|]. split; [repeat constructor; lia|vm_compute; discriminate]. }
+    assert (N : forall id cs, idok id -> flen cs <= 4000000000 -> Forall (rconf C01k_cfg) cs -> rconf C01k_cfg (RNode id (Some 1%nat) cs)).
+    { intros id cs H1 H2 H3. apply rconf_node. split; [exact H1|]. split; [exact H2|exact H3]. }
+    constructor; [|constructor; [|constructor; [|constructor]]].
+    + apply N; [assumption|vm_compute; discriminate|]. constructor; [exact V|constructor].
+    + apply N; [assumption|vm_compute; discriminate|].
+      constructor; [exact V|]. constructor; [|constructor; [|constructor; [exact V|constructor]]].
+      * apply N; [assumption|vm_compute; discriminate|].
+        constructor; [|constructor; [exact V|constructor; [|constructor]]].
+        -- split; [exact I6|]. split; [vm_compute; reflexivity|vm_compute; discriminate].
+        -- apply N; [assumption|vm_compute; discriminate|]. constructor; [exact L|constructor].
+      * apply N; [assumption|vm_compute; discriminate|].
+        constructor; [exact L|]. constructor; [|constructor; [exact V|constructor]].
+        apply N; [assumption|vm_compute; discriminate|]. constructor; [exact V|constructor; [exact L|constructor]].
+    + apply N; [assumption|vm_compute; discriminate|]. constructor.
+  - repeat constructor; discriminate.
+  - cbn [dstart C01g_doc]. right. split; [reflexivity|]. left. reflexivity.
+Qed.
+
+(* global elements at depths 1, 2 and 3, a recursive master nested in itself and below a named master, a global master before
+   the first root, written tag by tag with default options: every call succeeds (nothing leaves the writer while a known-size
+   master is open: 5, then 46, then 48 bytes delivered), the bytes are the structural encoding, and the strict reader yields
+   the written tags *)
+Example C01_ex_global_roundtrip :
+  map fst (fst (run_writer C01k_sp (wops_forest true C01g_doc) [])) = repeat WOk 24 /\
+  map snd (fst (run_writer C01k_sp (wops_forest true C01g_doc) [])) = (repeat 0 2 ++ repeat 5 19 ++ [46; 46; 48])%nat /\
+  snd (run_writer C01k_sp (wops_forest true C01g_doc) []) = enc_forest C01g_doc /\
+  map out_tag (p_run C01k_cfg (snd (run_writer C01k_sp (wops_forest true C01g_doc) [])) [RAll]) =
+    map op_tag (wops_forest true C01g_doc) ++ [None] /\
+  map op_tag (wops_forest true C01g_doc) =
+    [Some (TStart 132); Some (TElem 236 (VB [0])); Some (TEnd 132);
+     Some (TStart 129); Some (TElem 236 (VB [0]));
+     Some (TStart 130); Some (TElem 16641 (VU 5)); Some (TElem 236 (VB [0])); Some (TStart 131); Some (TElem 16642 (VB [7])); Some (TEnd 131);
+     Some (TEnd 130);
+     Some (TStart 131); Some (TElem 16642 (VB [7])); Some (TStart 131); Some (TElem 236 (VB [0])); Some (TElem 16642 (VB [7])); Some (TEnd 131);
+     Some (TElem 236 (VB [0])); Some (TEnd 131);
+     Some (TElem 236 (VB [0])); Some (TEnd 129); Some (TStart 129); Some (TEnd 129)].
+Proof. vm_compute. repeat split; reflexivity. Qed.
